@@ -3191,7 +3191,11 @@ def run(ctx):
                 'operation is modelled - by both routes of the Lean model. Oracle: old and new must reproduce the reference values, shapes, '
                 'dtype classes and exception classes at every statement and in the final read-out of every variable (aliases included); '
                 'every elementwise node with a Field operand must return a Field on that grid; copy/pickle must return an independent equal '
-                'Field. Correspondence: tag (Field+grid / ndarray / scalar), shape, dtype class and values of every observation of each '
+                'Field; values derived by indexing/reshape/shaped/real/imag from a variable that is updated in place afterwards are read at the end too '
+                '(views must behave alike); every program is run a fourth time with the Field style switched between statements (mixed-style operands, '
+                'targets and aliases) against the same reference; .shaped of a value that is a Field under one style only (0-d results, np.where) is '
+                'generated on purpose and held to the predicted AttributeError / reference value (accepted divergence, counted). Correspondence: the model\'s '
+                'decidable side condition agree? against where the real styles first hand different kinds of object to .shaped; tag (Field+grid / ndarray / scalar), shape, dtype class and values of every observation of each '
                 'style against the matching model route. Pipelines: 20 library computations (incl. hcipy._math.fft called directly on four dtypes) under 64 configuration combinations (every pair of switches in all four settings; thorough: the full product of 128 in two of six rounds) '
                 'against the default; 8 kinds of Fourier object (MFT 2-D/1-D, FFT 2-D/1-D, FourierFilter, NFT, make_fourier_transform, ZoomFFT) each REUSED over scripted and random call sequences (precision changes, tensor-shape changes, forward/backward) under every relevant switch x field style x backend, every call compared with a fresh object under the same configuration and with the default configuration; NFT / MFT / make_fourier_transform on polar (separated, regular, unstructured) and explicitly or automatically weighted Cartesian grids as input, output or both, under every option combination, forward / backward / transformation matrices against the defining weighted Fourier sum computed by the harness. Non-trivial = at least three statements; distinct by the sequence of statement signatures.')
     ctx.assumptions += ['plain ndarray arithmetic is the reference for the values',
